@@ -96,6 +96,7 @@ type Driver struct {
 	Trace    []string
 	keepTrace bool
 	PollNo   int
+	SettleExhausted bool
 	lastPoll time.Time
 	Hold     map[int]bool // clients the profile's own run loop has not released yet
 	Round    int
@@ -916,7 +917,11 @@ func (d *Driver) settle() {
 	t0 := time.Now()
 	maxFake := time.Duration(d.P.Sched.SettleS) * time.Second
 	quiet := 0
-	for iter := 0; time.Since(t0) < maxFake+time.Second && iter < 4000; iter++ {
+	for iter := 0; time.Since(t0) < maxFake+time.Second; iter++ {
+		if iter > 400000 {
+			d.SettleExhausted = true // bytes were still moving: the run proves nothing, it is not a violation
+			return
+		}
 		d.Step++
 		d.fireEvents()
 		changed := false
